@@ -186,8 +186,8 @@ MUTANTS += [
     M("c15-late-reply-accepted", "C15", "late reply no longer discarded", (A, "        if self.expired:\n            return\n        self._is_exc = is_exc", "        self._is_exc = is_exc")),
     M("c15-timeout-gt", "C15", "Timeout.expired uses > instead of >=", (L, "        return self.finite and time.time() >= self.tmax", "        return self.finite and time.time() > self.tmax")),
     M("c15-callbacks-not-cleared-x", "EQUIVALENT", "(removed: code rewritten by the callback-race fix)"),
-    M("c15-callbacks-reversed", "C15", "callbacks run in reverse registration order", (A, "        for cb in self._callbacks:\n            cb(self)", "        for cb in reversed(self._callbacks):\n            cb(self)")),
-    M("c15-add-callback-late", "C15", "callback registered after readiness is queued, not run", (A, "        if self._is_ready:\n            func(self)\n        else:\n            self._callbacks.append(func)", "        self._callbacks.append(func)")),
+    M("c15-callbacks-reversed", "C15", "callbacks run in reverse registration order", (A, "                self._callbacks.pop(0)(self)", "                self._callbacks.pop()(self)")),
+    M("c15-add-callback-late", "C15", "callback registered after readiness is queued, not run", (A, "        self._callbacks.append(func)\n        if self._is_ready:\n            self._run_callbacks()", "        self._callbacks.append(func)")),
     M("c15-wait-if", "C15", "wait: while -> if", (A, "        while not self._is_ready and not self._ttl.expired():", "        if not self._is_ready and not self._ttl.expired():")),
     M("c15-sync-ignores-timeout", "C15", "sync_request ignores the configured timeout", (P, '        timeout = self._config["sync_request_timeout"]\n        return self.async_request(handler, *args, timeout=timeout).value', '        return self.async_request(handler, *args, timeout=30).value')),
     M("c15-negative-timeout-zero", "C15", "negative timeout treated as already expired", (L, "            self.finite = timeout is not None and timeout >= 0\n            self.tmax = time.time() + timeout if self.finite else None", "            self.finite = timeout is not None\n            self.tmax = time.time() + max(timeout, 0) if self.finite else None")),
